@@ -32,7 +32,7 @@ pub fn def() -> CheckDef {
             real: super::REAL_COMPONENTS,
             stub: super::STUB_COMPONENTS,
         },
-        runs: |t| if t.thorough() { 60_000 } else { 2_000 },
+        runs: |t| if t.thorough() { 300_000 } else { 15_000 },
         run,
         execute,
         expected_probes: &["name_below_slash", "name_above_slash", "multibyte_name", "extension_siblings", "triples_checked", "invalid_strings_checked", "multi_hunk_band"],
